@@ -651,6 +651,15 @@ group_impl!(g2, G2, G2Affine, Fq2, G2Compressed, G2Uncompressed, transmute::g2_p
 
 // ------------------------------------------------------------------ hashing
 
+thread_local! { static FIXED_BYTES: std::cell::RefCell<Vec<u8>> = std::cell::RefCell::new(vec![]); }
+/// an expander that returns prescribed uniform bytes (to drive hash_to_curve with chosen field elements)
+struct FixedExpander;
+impl ExpandMsg for FixedExpander {
+    fn expand_message(_msg: &[u8], _dst: &[u8], len_in_bytes: usize) -> Vec<u8> {
+        FIXED_BYTES.with(|b| { let v = b.borrow(); assert!(v.len() == len_in_bytes); v.clone() })
+    }
+}
+
 type Xmd256 = ExpandMsgXmd<sha2::Sha256>;
 type Xmd512 = ExpandMsgXmd<sha2::Sha512>;
 type Xof128 = ExpandMsgXof<sha3::Shake128>;
@@ -706,6 +715,15 @@ fn hash_op(op: &str, a: &[&str]) -> R {
                 "fq" => { if b.len() != 64 { return None; } Fq::from_okm(GenericArray::from_slice(&b)).show() }
                 "fr" => { if b.len() != 48 { return None; } Fr::from_okm(GenericArray::from_slice(&b)).show() }
                 "fq2" => { if b.len() != 128 { return None; } Fq2::from_ro(GenericArray::from_slice(&b)).show() }
+                _ => return None,
+            }
+        }
+        ("h2cfix", 3) => {
+            let bytes = parse_bytes(a[2])?;
+            FIXED_BYTES.with(|b| *b.borrow_mut() = bytes);
+            match a[0] {
+                "g1" => g1::h2c::<FixedExpander>(a[1], &[], &[])?,
+                "g2" => g2::h2c::<FixedExpander>(a[1], &[], &[])?,
                 _ => return None,
             }
         }
